@@ -141,6 +141,8 @@ def run_real(spec):
         out, status = None, 'valueerror'
     except KeyError:
         out, status = None, 'keyerror'
+    except Exception as err:                      # anything else: reported, never fatal for the check
+        out, status = None, 'exception-' + type(err).__name__.lower()
     raw = [(ids[i], m) for i, m in RECORD if i in ids]
     return status, out, raw, list(LOGS), mol, mlist
 
@@ -174,8 +176,37 @@ def canon_real(status, out, logs):
 # ----------------------------------------------------------------------------
 # spec -> protocol lines
 # ----------------------------------------------------------------------------
-def proto_map(spec, mlist, raw):
-    atoms = [[k, a['resid'], a['resname'], a['chain'], a.get('element', '') == 'H'] for k, a in spec['atoms']]
+def enc_atoms(mol):
+    return [[k, a['resid'], a['resname'], a['chain'], a.get('element', '') == 'H'] for k, a in mol.nodes(data=True)]
+
+
+def enc_inters(graph, tidx):
+    inters = []
+    for typ in sorted(graph.interactions):
+        for it in graph.interactions[typ]:
+            inters.append([typ, [tidx[x] for x in it.atoms], ' '.join(str(p) for p in it.parameters),
+                           it.meta.get('version', 0)])
+    return inters
+
+
+def enc_weights(m, fidx, tidx):
+    weights = []
+    for f, ws in m.mapping.items():
+        if f in fidx:
+            weights.append([fidx[f], [[tidx[t], Fraction(w).numerator, Fraction(w).denominator]
+                                      for t, w in ws.items()]])
+    return weights
+
+
+def enc_raw(mlist, raw):
+    rawl = []
+    for i, mt in raw:
+        fidx = {k: j for j, k in enumerate(mlist[i].block_from.nodes)}
+        rawl.append([i, [[a, fidx[f]] for a, f in mt]])
+    return rawl
+
+
+def enc_block_maps(mlist, raw):
     maps = []
     for m in mlist:
         fidx = {k: i for i, k in enumerate(m.block_from.nodes)}
@@ -183,21 +214,27 @@ def proto_map(spec, mlist, raw):
         nodes = [[tidx[k], a.get('atomname'), a.get('resid'), a.get('charge_group')]
                  for k, a in m.block_to.nodes(data=True)]
         edges = [[tidx[a], tidx[b]] for a, b in m.block_to.edges]
-        inters = []
-        for typ in sorted(m.block_to.interactions):
-            for it in m.block_to.interactions[typ]:
-                inters.append([typ, [tidx[x] for x in it.atoms], ' '.join(str(p) for p in it.parameters), 0])
-        weights = []
-        for f, ws in m.mapping.items():
-            if f in fidx:
-                weights.append([fidx[f], [[tidx[t], Fraction(w).numerator, Fraction(w).denominator]
-                                          for t, w in ws.items()]])
         refs = [[tidx[t], fidx.get(f, -1)] for t, f in m.references.items()]
-        maps.append([nodes, edges, inters, m.block_to.nrexcl, weights, refs])
-    rawl = []
-    for i, mt in raw:
-        fidx = {k: j for j, k in enumerate(mlist[i].block_from.nodes)}
-        rawl.append([i, [[a, fidx[f]] for a, f in mt]])
+        maps.append([nodes, edges, enc_inters(m.block_to, tidx), m.block_to.nrexcl, enc_weights(m, fidx, tidx), refs])
+    return maps, enc_raw(mlist, raw)
+
+
+def enc_mod_maps(mlist, raw):
+    mods = []
+    for m in mlist:
+        fidx = {k: i for i, k in enumerate(m.block_from.nodes)}
+        tidx = {k: i for i, k in enumerate(m.block_to.nodes)}
+        nodes = [[tidx[k], a.get('atomname'), a.get('resid'), a.get('charge_group'), bool(a.get('PTM_atom', False))]
+                 for k, a in m.block_to.nodes(data=True)]
+        edges = [[tidx[a], tidx[b]] for a, b in m.block_to.edges]
+        refs = [[tidx[t], fidx.get(f, -1)] for t, f in m.references.items()]
+        mods.append([nodes, edges, enc_inters(m.block_to, tidx), enc_weights(m, fidx, tidx), refs])
+    return mods, enc_raw(mlist, raw)
+
+
+def proto_map(spec, mlist, raw):
+    atoms = [[k, a['resid'], a['resname'], a['chain'], a.get('element', '') == 'H'] for k, a in spec['atoms']]
+    maps, rawl = enc_block_maps(mlist, raw)
     return line('map', atoms, spec['edges'], maps, rawl)
 
 
@@ -295,6 +332,7 @@ def oracle(spec, mol, mlist, out, logs, raw):
                         next(iter(set(real_set) ^ set(brute_set))))))
         return errs, info
     info['placements'] = len(places)
+    info['first_not_min'] = any(mt and mt[0][0] != min(x for x, _ in mt) for _, mt in raw)
     atomsets = [set(emb.values()) for _, emb in places]
     shared = set()
     for a, b in itertools.combinations(range(len(places)), 2):
@@ -358,8 +396,8 @@ def oracle(spec, mol, mlist, out, logs, raw):
         f = next(f for f, x in emb.items() if x == atom)
         has_spawned = any(not any(b in ws for ws in m.mapping.values()) for b in m.block_to.nodes)
         return bool(m.mapping.get(f)) or has_spawned
-    strict = {a for a in shared if all(contributes(j, a) for j in range(len(places)) if a in atomsets[j])}
-    info['overlap_noncontributing'] = bool(shared - strict)
+    strict = set(shared)       # F-C01-4 is fixed: every shared atom must be reported
+    info['overlap_noncontributing'] = any(not contributes(j, a) for a in shared for j in range(len(places)) if a in atomsets[j])
     if strict and (logging.WARNING, 'inconsistent-data') not in types:
         errs.append(('overlap_warned', 'atoms %r are in two placements and no inconsistent-data warning was raised'
                      % sorted(strict)[:5]))
@@ -756,7 +794,7 @@ for (cid, spec, meta, status, impl, errs, info, logs, ln), sent, mo in zip(recs,
     chk.count('topo=' + meta['topo'])
     chk.count('keys=' + meta['keys'])
     chk.count('placements=%s' % (npl if npl < 6 else '6+'))
-    for name, flag in (('overlap', info.get('overlap')), ('overlap_noncontributing_atom', info.get('overlap_noncontributing')), ('spawned', info.get('spawned')), ('lost_atoms', info.get('lost')),
+    for name, flag in (('first_matched_atom_not_lowest_key', info.get('first_not_min')), ('overlap', info.get('overlap')), ('overlap_noncontributing_atom', info.get('overlap_noncontributing')), ('spawned', info.get('spawned')), ('lost_atoms', info.get('lost')),
                        ('inter_bonds', info.get('inter_bonds')), ('warn_garbage', kinds[1]), ('warn_disconnected', kinds[2]),
                        ('warn_hydrogens', kinds[4]), ('two_residue_mapping', any(m['name'] == 'PAIR' for m in spec['mappings'])),
                        ('references', any(m['refs'] for m in spec['mappings'])), ('unexpected_log', other)):
@@ -773,104 +811,260 @@ for (cid, ln, real, n), mo in zip(mlines, mmodels):
     chk.case(cid, ln, real, mo, [], n >= 2)
 
 # ----------------------------------------------------------------------------
-# modification mappings (oracle only; not in the Lean model): a toy modification mapping that
-# creates a new particle.  Known finding F-C01-3 (do_mapping.py:336, upstream issue #154).
+# modification mappings: toy modifications built through Link / Mapping(type='modification'),
+# real do_mapping vs the Lean model (`mapmod`), selection of the mappings vs `modselect`,
+# the real `cover` vs the model's, and an oracle.  Known finding F-C01-3 (do_mapping.py:336,
+# upstream issue #154) is tagged by its signature.
 # ----------------------------------------------------------------------------
-def mod_probe(nres, modified, interleaved, start):
-    from vermouth.molecule import Link
+from vermouth.molecule import Link
+from vermouth.processors.do_mapping import cover as real_cover
+import vermouth.processors.do_mapping as DM
+
+MAPCALLS = []
+_orig_map = Mapping.map
+
+
+def _rec_map(self, graph, node_match=None, edge_match=None):
+    MAPCALLS.append((self.type, tuple(self.names)))
+    return _orig_map(self, graph, node_match=node_match, edge_match=edge_match)
+
+
+Mapping.map = _rec_map
+
+
+def run_with_mods(mol, mappings, to_ff, keep=KEEP):
+    """-> status, out, raw block matches, raw mod matches, logs, block mlist, mod mlist, called mod names"""
+    coll = list(mappings[mol.force_field.name][to_ff.name].values())
+    blocks = [m for m in coll if m.type == 'block']
+    mods = [m for m in coll if m.type == 'modification']
+    bid = {id(m.block_from): i for i, m in enumerate(blocks)}
+    mid = {id(m.block_from): i for i, m in enumerate(mods)}
+    RECORD.clear()
+    LOGS.clear()
+    MAPCALLS.clear()
+    try:
+        out = do_mapping(mol, mappings, to_ff, attribute_keep=keep, attribute_must=MUST, attribute_stash=STASH)
+        status = 'ok'
+    except ValueError:
+        out, status = None, 'valueerror'
+    except KeyError:
+        out, status = None, 'keyerror'
+    except Exception as err:                      # anything else: reported, never fatal for the check
+        out, status = None, 'exception-' + type(err).__name__.lower()
+    rawb = [(bid[i], m) for i, m in RECORD if i in bid]
+    rawm = [(mid[i], m) for i, m in RECORD if i in mid]
+    called = [n for t, n in MAPCALLS if t == 'modification']
+    return status, out, rawb, rawm, list(LOGS), blocks, mods, called
+
+
+def mod_groups(mol):
+    """the groups of modification names `modification_matches` works with (computed independently)"""
+    modified = [n for n in mol.nodes if mol.nodes[n].get('modifications')]
+    sub = nx.Graph()
+    sub.add_nodes_from(modified)
+    sub.add_edges_from((a, b) for a, b in mol.edges if a in sub and b in sub)
+    groups = []
+    for comp in nx.connected_components(sub):
+        names = set()
+        for n in comp:
+            names |= {m.name for m in mol.nodes[n]['modifications']}
+        groups.append(sorted(names))
+    return groups
+
+
+def build_mod_case(rng):
+    """toy: residues X (C1-C2[-C3]) -> B1 [B2]; modifications PHOS / METH on C2, overlaid or creating Q1 / R1"""
     ffa = vermouth.forcefield.ForceField(name='c01src')
     ffb = vermouth.forcefield.ForceField(name='c01tgt')
-    mod_a = Link(force_field=ffa, name='PHOS')
-    mod_a.add_node('C2', atomname='C2', PTM_atom=False, resname='X')
-    mod_a.add_node('P1', atomname='P1', PTM_atom=True, resname='X')
-    mod_a.add_node('P2', atomname='P2', PTM_atom=True, resname='X')
-    mod_a.add_edges_from([('C2', 'P1'), ('P1', 'P2')])
-    mod_b = Link(force_field=ffb, name='PHOS')
-    mod_b.add_node('B1', atomname='B1', PTM_atom=False, resname='X')
-    mod_b.add_node('Q1', atomname='Q1', PTM_atom=True, resname='X')      # the new particle
-    mod_b.add_edge('B1', 'Q1')
+    three = rng.random() < 0.4
+    names = ['C1', 'C2'] + (['C3'] if three else [])
+    ba = Block(force_field=ffa)
+    ba.name = 'X'
+    for n in names:
+        ba.add_node(n, resid=1, resname='X', atomname=n)
+    ba.add_edges_from(zip(names, names[1:]))
+    bb = Block(force_field=ffb)
+    bb.name = 'X'
+    bb.add_node('B1', resid=1, resname='X', atomname='B1')
+    bmap = {'C1': {'B1': 1}, 'C2': {'B1': wval(rng.choice(WEIGHTS))}}
+    if three:
+        bb.add_node('B2', resid=1, resname='X', atomname='B2')
+        bb.add_edge('B1', 'B2')
+        bb.add_interaction('bonds', ['B1', 'B2'], ['1', '0.35', '1250'])
+        bmap['C3'] = {'B2': 1}
+    mappings = {'X': Mapping(ba, bb, mapping=bmap, references={}, ff_from=ffa, ff_to=ffb, names=('X',))}
+    defs = {}
+    for mname, ptm, anchor in (('PHOS', ['P1', 'P2'], 'C2'), ('METH', ['M1'], 'C3' if three else 'C1')):
+        src = Link(force_field=ffa, name=mname)
+        src.add_node(anchor, atomname=anchor, PTM_atom=False, resname='X')
+        for q in ptm:
+            src.add_node(q, atomname=q, PTM_atom=True, resname='X')
+        src.add_edges_from(zip([anchor] + ptm, ptm))
+        defs[mname] = (src, ptm, anchor)
+        kind = rng.choice(['overlay', 'overlay', 'new', 'new', 'none'])
+        if kind == 'none':
+            continue                                       # no mapping known for this modification
+        host = 'B2' if (three and anchor == 'C3') else 'B1'
+        tgt = Link(force_field=ffb, name=mname)
+        tgt.add_node(host, atomname=host, PTM_atom=False, resname='X')
+        mp = {anchor: {host: wval(rng.choice(WEIGHTS))}}
+        if kind == 'overlay':
+            for q in ptm:
+                mp[q] = {host: wval(rng.choice(WEIGHTS))}
+            if three and rng.random() < 0.5 and host == 'B1':
+                pass
+        else:
+            newname = 'Q1' if mname == 'PHOS' else 'R1'
+            attrs = {'atomname': newname, 'PTM_atom': True, 'resname': 'X'}
+            if rng.random() < 0.15:
+                attrs['charge_group'] = 7
+            tgt.add_node(newname, **attrs)
+            tgt.add_edge(host, newname)
+            if rng.random() < 0.6:
+                tgt.add_interaction('bonds', [host, newname], ['1', '0.2', '5000'])
+            for q in ptm:
+                mp[q] = {newname: wval(rng.choice(WEIGHTS))}
+            if rng.random() < 0.2:
+                mp[ptm[0]][host] = wval('1/2')            # a PTM atom shared between the two particles
+        refs = {}
+        if rng.random() < 0.15:
+            refs = {host: anchor}
+        mappings[mname] = Mapping(src, tgt, mapping=mp, references=refs, ff_from=ffa, ff_to=ffb, names=(mname,),
+                                  type='modification')
+    nres = rng.randint(2, 5)
+    interleaved = rng.random() < 0.6
+    start = rng.choice([1, 1, 3, 10])
     mol = Molecule(force_field=ffa)
     prev = None
     extra = 10 * nres
+    plan = []
     for r in range(nres):
-        a, b = 10 * r, 10 * r + 1
-        mol.add_node(a, resid=start + r, resname='X', atomname='C1', chain='A', element='C')
-        mol.add_node(b, resid=start + r, resname='X', atomname='C2', chain='A', element='C')
-        mol.add_edge(a, b)
+        local = {}
+        for q, n in enumerate(names):
+            k = 10 * r + q
+            local[n] = k
+            mol.add_node(k, resid=start + r, resname='X', atomname=n, chain='A', element='C')
+        for a, b in zip(names, names[1:]):
+            mol.add_edge(local[a], local[b])
         if prev is not None:
-            mol.add_edge(prev, a)
-        prev = b
-    for r in modified:
-        b = 10 * r + 1
-        if interleaved:
-            p1, p2 = 10 * r + 2, 10 * r + 3
-        else:
-            p1, p2 = extra, extra + 1
-            extra += 2
-        for k, n, el in ((p1, 'P1', 'P'), (p2, 'P2', 'O')):
-            mol.add_node(k, resid=start + r, resname='X', atomname=n, chain='A', element=el, PTM_atom=True,
-                         modifications=[mod_a])
-        mol.nodes[b]['modifications'] = [mod_a]
-        mol.add_edges_from([(b, p1), (p1, p2)])
-    ba = Block(force_field=ffa)
-    ba.name = 'X'
-    ba.add_nodes_from([('C1', {'resid': 1, 'resname': 'X', 'atomname': 'C1'}),
-                       ('C2', {'resid': 1, 'resname': 'X', 'atomname': 'C2'})])
-    ba.add_edge('C1', 'C2')
-    bb = Block(force_field=ffb)
-    bb.name = 'X'
-    bb.add_nodes_from([('B1', {'resid': 1, 'resname': 'X', 'atomname': 'B1'})])
-    mblock = Mapping(ba, bb, mapping={'C1': {'B1': 1}, 'C2': {'B1': 1}}, references={}, ff_from=ffa, ff_to=ffb,
-                     names=('X',))
-    mmod = Mapping(mod_a, mod_b, mapping={'C2': {'B1': 1}, 'P1': {'Q1': 1}, 'P2': {'Q1': 1}}, references={},
-                   ff_from=ffa, ff_to=ffb, names=('PHOS',), type='modification')
-    LOGS.clear()
-    out = do_mapping(mol, {'c01src': {'c01tgt': {'X': mblock, 'PHOS': mmod}}}, ffb, attribute_keep=KEEP,
-                     attribute_must=MUST, attribute_stash=STASH)
+            mol.add_edge(prev, local['C1'])
+        prev = local[names[-1]]
+        for mname in ('PHOS', 'METH'):
+            if rng.random() < 0.35:
+                plan.append((r, mname, local))
+    for r, mname, local in plan:
+        src, ptm, anchor = defs[mname]
+        last = local[anchor]
+        mol.nodes[last]['modifications'] = mol.nodes[last].get('modifications', []) + [src]
+        for q, n in enumerate(ptm):
+            if interleaved:
+                k = 10 * r + 4 + q + (3 if mname == 'METH' else 0)
+            else:
+                k = extra
+                extra += 1
+            mol.add_node(k, resid=start + r, resname='X', atomname=n, chain='A',
+                         element='H' if (n == 'M1' and rng.random() < 0.3) else 'P', PTM_atom=True, modifications=[src])
+            mol.add_edge(last, k)
+            last = k
+    return mol, {'c01src': {'c01tgt': mappings}}, ffb, {'nres': nres, 'interleaved': interleaved, 'mods': len(plan)}
+
+
+def mod_oracle(mol, out, logs, mods, rawm, nres_expected=None):
     errs = []
-    b1 = [n for n in out.nodes if out.nodes[n]['atomname'] == 'B1']
-    got = [out.nodes[n].get('resid') for n in b1]
-    if got != list(range(1, nres + 1)):
-        errs.append(('resid_after_modification', 'residues are numbered %r, expected 1..%d' % (got, nres)))
+    types = [(lvl, typ) for lvl, typ, _ in logs]
+    cons = {n: dict(out.nodes[n].get('mapping_weights', {})) for n in out.nodes}
+    contributing = set().union(*[set(c) for c in cons.values()]) if cons else set()
+    # every PTM atom of a matched modification contributes with the declared weight
+    for i, mt in rawm:
+        m = mods[i]
+        for atom, f in mt:
+            for t, w in m.mapping.get(f, {}).items():
+                want_name = m.block_to.nodes[t]['atomname']
+                hits = [n for n in out.nodes if atom in cons[n] and out.nodes[n].get('atomname') == want_name
+                        and Fraction(cons[n][atom]) == Fraction(w)]
+                if not hits:
+                    errs.append(('mod_weights', 'atom %r of a matched modification %s should contribute %s to a '
+                                 'particle %s' % (atom, m.names, w, want_name)))
+    lost = [a for a in mol.nodes if a not in contributing and mol.nodes[a].get('element', '') != 'H']
+    if lost and (logging.WARNING, 'unmapped-atom') not in types:
+        errs.append(('no_silent_loss', 'atoms %r contribute to no particle, no unmapped-atom warning' % lost[:5]))
+    # residues stay numbered consecutively; new particles sit in the residue of the particle they hang on
+    newnames = {a['atomname'] for m in mods for _, a in m.block_to.nodes(data=True) if a.get('PTM_atom')}
+    seq = []
     for n in out.nodes:
-        if out.nodes[n]['atomname'] != 'Q1':
-            continue
-        host = [x for x in out[n] if out.nodes[x]['atomname'] == 'B1']
-        if len(host) != 1:
-            errs.append(('ptm_placement', 'new particle %r is bonded to %r' % (n, host)))
-        elif out.nodes[n].get('resid') != out.nodes[host[0]].get('resid'):
-            errs.append(('ptm_resid', 'new particle %r has resid %r, the particle it is attached to has %r'
-                         % (n, out.nodes[n].get('resid'), out.nodes[host[0]].get('resid'))))
-        if set(out.nodes[n].get('mapping_weights', {})) != {a for a in mol.nodes
-                                                               if mol.nodes[a].get('PTM_atom') and mol.has_edge(a, a) is False
-                                                               and mol.nodes[a]['resid'] == out.nodes[n].get('_old_resid')}:
-            errs.append(('ptm_weights', 'new particle %r records atoms %r' % (n, sorted(out.nodes[n].get('mapping_weights', {})))))
-    nq = sum(1 for n in out.nodes if out.nodes[n]['atomname'] == 'Q1')
-    if nq != len(modified):
-        errs.append(('ptm_placement', '%d modified residues, %d new particles' % (len(modified), nq)))
-    kinds, other = warn_kinds(LOGS)
-    if kinds[3]:
-        errs.append(('no_silent_loss', 'unexpected unmapped-atom warning'))
-    desc = 'ok ' + enc([[n, out.nodes[n]['atomname'], out.nodes[n].get('resid'), out.nodes[n].get('_old_resid')]
-                        for n in out.nodes])
-    return errs, desc
+        a = out.nodes[n]
+        if a.get('atomname') in newnames:
+            hosts = [x for x in out[n] if out.nodes[x].get('atomname') not in newnames]
+            if hosts and a.get('resid') != out.nodes[hosts[0]].get('resid'):
+                errs.append(('ptm_resid', 'new particle %r has resid %r, the particle it is attached to has %r'
+                             % (n, a.get('resid'), out.nodes[hosts[0]].get('resid'))))
+        elif a.get('atomname') == 'B1':
+            seq.append(a.get('resid'))
+    if nres_expected is not None and seq != list(range(1, nres_expected + 1)):
+        errs.append(('resid_after_modification', 'residues are numbered %r, expected 1..%d' % (seq, nres_expected)))
+    return errs
+
+
+def canon_mod(status, out, logs):
+    return canon_real(status, out, logs)
 
 
 mrng = chk.rng('modification')
-mod_cases = [(5, [2], True, 1), (3, [0], False, 3), (4, [3], True, 1), (3, [1], False, 1)]
-for _ in range(60 if chk.thorough else 12):
-    n = mrng.randint(2, 6)
-    mod_cases.append((n, sorted(mrng.sample(range(n), mrng.randint(1, min(2, n)))), mrng.random() < 0.6,
-                      mrng.choice([1, 1, 3, 10])))
-for i, (n, modified, inter, start) in enumerate(mod_cases):
-    errs, desc = mod_probe(n, modified, inter, start)
+mod_lines, mod_recs, sel_lines, sel_recs = [], [], [], []
+for i in range(1500 if chk.thorough else 150):
+    mol, mappings, ffb, meta = build_mod_case(mrng)
+    status, out, rawb, rawm, logs, blocks, mods, called = run_with_mods(mol, mappings, ffb)
+    maps_enc, rawb_enc = enc_block_maps(blocks, rawb)
+    mods_enc, rawm_enc = enc_mod_maps(mods, rawm)
+    ln = line('mapmod', enc_atoms(mol), [list(e) for e in mol.edges], maps_enc, rawb_enc, mods_enc, rawm_enc)
+    errs = (mod_oracle(mol, out, logs, mods, rawm, meta['nres']) if status == 'ok' else
+            [('no_crash', 'do_mapping raised %s on a molecule whose modifications all fit their mappings' % status)])
+    has_new = any(a.get('PTM_atom') for m in mods for _, a in m.block_to.nodes(data=True))
+    mod_lines.append(ln)
+    mod_recs.append(('mod-%d' % i, canon_mod(status, out, logs), errs, has_new, meta, status, len(rawm)))
+    known = [list(m.names) for m in mods]
+    groups = mod_groups(mol)
+    ncant = sum(1 for _, _, msg in logs if msg.startswith("Can't find modification mappings"))
+    sel_lines.append(line('modselect', known, groups))
+    sel_recs.append(('modsel-%d' % i, enc(sorted(sorted(n) for n in set(called))) + ' %d' % ncant, len(groups)))
+mod_models = chk.drv.ask(mod_lines) if chk.lean_ok else [None] * len(mod_lines)
+for (cid, impl, errs, has_new, meta, status, nm), ln, mo in zip(mod_recs, mod_lines, mod_models):
     cl = {c for c, _ in errs}
-    # signature of F-C01-3: a modification mapping creates a new particle (always the case here) and the only
-    # failures are: residue numbers restart after it / the new particle carries the input resid
-    fid = 'F-C01-3' if cl and cl <= {'resid_after_modification', 'ptm_resid'} and 'F-C01-3' in KNOWN_IDS else None
-    chk.count('modification_probe_' + ('fails' if errs else 'passes'))
-    chk.case('modprobe-%d' % i, line('modprobe', n, modified, inter, start), desc, None,
-             ['%s: %s' % e for e in errs], True, finding=fid)
+    # signature of F-C01-3: a modification mapping of the case creates a new particle and the only failures are:
+    # residue numbers restart after it / the new particle carries the input resid instead of its residue's
+    fid = 'F-C01-3' if (cl and has_new and cl <= {'resid_after_modification', 'ptm_resid'}
+                        and 'F-C01-3' in KNOWN_IDS) else None
+    chk.count('mod_status=' + status)
+    chk.count('mod_matches=%s' % (nm if nm < 4 else '4+'))
+    chk.count('mod_case_' + ('fails_known' if fid else 'fails' if errs else 'passes'))
+    chk.case(cid, ln, impl, mo, ['%s: %s' % e for e in errs], nm >= 1, finding=fid)
+sel_models = chk.drv.ask(sel_lines) if chk.lean_ok else [None] * len(sel_lines)
+for (cid, impl, ng), ln, mo in zip(sel_recs, sel_lines, sel_models):
+    chk.count('modselect_compared')
+    chk.case(cid, ln, impl, mo, [], ng >= 1)
+
+# the real `cover` against the model's on random name lists
+crng = chk.rng('cover')
+cov_lines, cov_impl = [], []
+ALPHA = ['a', 'b', 'c', 'd', 'e']
+for i in range(3000 if chk.thorough else 400):
+    tc = [crng.choice(ALPHA) for _ in range(crng.randint(0, 5))]
+    if crng.random() < 0.7:
+        tc = sorted(set(tc), key=tc.index)
+    opts = []
+    for _ in range(crng.randint(0, 5)):
+        o = crng.sample(ALPHA, crng.randint(1, 3))
+        if o not in opts:
+            opts.append(o)
+    res = real_cover(list(tc), sorted(opts, key=len, reverse=True))
+    # one group, `known` = opts: needed = set of chosen options, uncovered = 1 if None
+    impl = (enc(sorted(sorted(set(map(tuple, res))))) + ' 0') if res is not None else '[ ] 1'
+    cov_lines.append(line('modselect', opts, [tc]))
+    cov_impl.append(enc(sorted([list(o) for o in set(map(tuple, res))])) + ' 0' if res is not None else '[ ] 1')
+cov_models = chk.drv.ask(cov_lines) if chk.lean_ok else [None] * len(cov_lines)
+for i, (ln, im, mo) in enumerate(zip(cov_lines, cov_impl, cov_models)):
+    chk.count('cover_compared')
+    chk.case('cover-%d' % i, ln, im, mo, [], True)
 
 # ----------------------------------------------------------------------------
 # thorough: charmm -> martini3001 on the tier-0 / tier-1 test structures (oracle only)
@@ -883,7 +1077,6 @@ def real_ff_cases():
     maps = read_mapping_directory(Path(DATA_PATH) / 'mappings', ffs)
     combine_mappings(maps, generate_all_self_mappings(ffs.values()))
     base = Path(REPO) / 'vermouth' / 'tests' / 'data' / 'integration_tests'
-    block_ids = {id(mp.block_from) for mp in maps['charmm']['martini3001'].values() if mp.type == 'block'}
     structures = sorted(base.glob('tier-0/*/aa.pdb')) + [base / 'tier-1' / n / 'aa.pdb'
                                                            for n in ('bpti', '3i40', '1UBQ', 'villin', 'hst5')]
     for path in structures:
@@ -897,11 +1090,19 @@ def real_ff_cases():
         vermouth.RepairGraph(delete_unknown=True, include_graph=False).run_system(system)
         vermouth.CanonicalizeModifications().run_system(system)
         for mi, mol in enumerate(system.molecules):
-            RECORD.clear()
-            LOGS.clear()
-            out = do_mapping(mol, maps, ffs['martini3001'], attribute_keep=('cgsecstruct', 'chain', 'secstruct'),
-                             attribute_must=('resname',), attribute_stash=('resid',))
-            yield '%s-%s-mol%d' % (path.parent.parent.name, path.parent.name, mi), mol, out, [r for r in RECORD if r[0] in block_ids], list(LOGS)
+            status, out, rawb, rawm, logs, blocks, mods, called = run_with_mods(
+                mol, maps, ffs['martini3001'], keep=('cgsecstruct', 'chain', 'secstruct'))
+            ln = None
+            if len(rawb) <= 45:
+                used_b = sorted({i for i, _ in rawb})
+                used_m = sorted({i for i, _ in rawm})
+                bsel = [blocks[i] for i in used_b]
+                msel = [mods[i] for i in used_m]
+                maps_enc, rawb_enc = enc_block_maps(bsel, [(used_b.index(i), mt) for i, mt in rawb])
+                mods_enc, rawm_enc = enc_mod_maps(msel, [(used_m.index(i), mt) for i, mt in rawm])
+                ln = line('mapmod', enc_atoms(mol), [list(e) for e in mol.edges], maps_enc, rawb_enc, mods_enc, rawm_enc)
+            yield ('%s-%s-mol%d' % (path.parent.parent.name, path.parent.name, mi), mol, out, rawb, logs, ln,
+                   canon_real(status, out, logs), sorted(set(called)), mods, rawm)
 
 
 def real_ff_oracle(mol, out, raw, logs):
@@ -949,12 +1150,23 @@ def real_ff_oracle(mol, out, raw, logs):
     return errs, inter
 
 
-if chk.thorough:
-    for cid, mol, out, raw, logs in real_ff_cases():
+if chk.thorough or os.environ.get('C01_REALFF'):
+    rl, rr = [], []
+    for cid, mol, out, raw, logs, ln, impl, called, mods, rawm in real_ff_cases():
         errs, inter = real_ff_oracle(mol, out, raw, logs)
+        errs += ['%s: %s' % e for e in mod_oracle(mol, out, logs, mods, rawm)]
         chk.count('real_ff_molecules')
         chk.count('real_ff_particles', len(out))
+        for n in called:
+            chk.count('real_ff_modification_%s' % '+'.join(n))
         chk.case('realff-' + cid, 'realff ' + cid + ' atoms=%d' % len(mol), 'particles=%d residues=%d inter_bonds=%d'
                  % (len(out), len({out.nodes[n]['resid'] for n in out.nodes}), inter), None, errs, inter >= 1)
+        if ln is not None:
+            rl.append(ln)
+            rr.append((cid, impl, len(rawm)))
+    rmodels = chk.drv.ask(rl) if chk.lean_ok else [None] * len(rl)
+    for (cid, impl, nm), ln, mo in zip(rr, rl, rmodels):
+        chk.count('real_ff_model_compared')
+        chk.case('realff-model-' + cid, ln, impl, mo, [], nm >= 1)
 
 chk.finish()
